@@ -1,6 +1,7 @@
 import Norad.Base.Proto
 import Norad.Model.C18
 import Norad.Model.DSCodec
+import Norad.Model.DSFloat
 import Norad.Spec.C18
 /-!
 Driver module for C18 (line formats: see `harness/src/c18.rs`).
@@ -351,6 +352,22 @@ def dateImplOk (t : Tab) : Bool :=
       | some s => rfc3339Read s == some d
       | none => true)
 
+/-- the float model of the simple fragment (`Model/DSFloat.lean`, the one `codec_laws_simple_floats` is about)
+    against Rust: the first string reported for a bit pattern is Rust's `Display`, every reported string that
+    the model's reader understands must denote that bit pattern -/
+def floatImplOk (f : FloatFmt) (l : List (Nat × String)) : Bool :=
+  l.all fun e =>
+    (match simpleOf f e.1 with
+     | some r => (l.find? (·.1 = e.1)).map (·.2) != some e.2 || String.ofList (showDyadic r.1 r.2.1 r.2.2) == e.2
+     | none => true) &&
+    (match e.2.toList with
+     | '~' :: _ => true
+     | cs => match readDyadic f cs with
+       | some b => b == e.1
+       | none => true)
+
+def simpleCount (f : FloatFmt) (l : List (Nat × String)) : Nat := (l.filter fun e => (simpleOf f e.1).isSome).length
+
 def dedup (xs : List String) : List String :=
   xs.foldl (fun acc x => if acc.contains x then acc else acc ++ [x]) []
 
@@ -403,6 +420,10 @@ def runSave (inp obs : List String) : Verdict :=
       (if fBlank then ["lib-edge-blank"] else []) ++ (if fDate then ["date-range"] else []) ++
       (if !lawsOk tab then ["codec-law-broken"] else []) ++
       (if !dateImplOk tab then ["date-impl-differs"] else []) ++
+      (if !(floatImplOk fmt32 tab.f32 && floatImplOk fmt64 tab.f64) then ["float-impl-differs"] else []) ++
+      (if simpleCount fmt32 tab.f32 + simpleCount fmt64 tab.f64 > 0 then ["simple-floats"] else []) ++
+      (if simpleCount fmt32 tab.f32 == tab.f32.length && simpleCount fmt64 tab.f64 == tab.f64.length
+        then ["all-floats-simple"] else []) ++
       (if Spec.XmlSafe d != xmlFeats.isEmpty then ["xmlsafe-definitions-differ"] else []) ++ ["nt"]
     -- model
     let mt := toTree c d
@@ -437,7 +458,7 @@ def runSave (inp obs : List String) : Verdict :=
         let loadAgree := match iload with
           | some (l, _) => decide (l = mload)
           | none => false
-        let agree := outName mt == "ok" && treeAgree && loadAgree && lawsOk tab && dateImplOk tab && Spec.XmlSafe d == xmlFeats.isEmpty
+        let agree := outName mt == "ok" && treeAgree && loadAgree && lawsOk tab && dateImplOk tab && floatImplOk fmt32 tab.f32 && floatImplOk fmt64 tab.f64 && Spec.XmlSafe d == xmlFeats.isEmpty
         -- oracle on the implementation's own output
         let rt : List String :=
           if !wf then [] else
@@ -524,7 +545,9 @@ def runForeign (inp obs : List String) : Verdict :=
               | _ => none
           let tab : Tab := { tab0 with f32 := add tab0.f32 a32, f64 := add tab0.f64 a64 }
           let c := mkCodec tab
-          let tags := ["foreign-surface", "nt"] ++ feats.map ("surf-" ++ ·)
+          let fok := floatImplOk fmt32 tab.f32 && floatImplOk fmt64 tab.f64
+          let tags := ["foreign-surface", "nt"] ++ feats.map ("surf-" ++ ·) ++
+            (if fok then [] else ["float-impl-differs"])
           match splitObs rest with
           | none => { agree := false, model := "bad-observation", tags := tags }
           | some (itree, rest) =>
@@ -539,7 +562,7 @@ def runForeign (inp obs : List String) : Verdict :=
             let m : Option Doc := match itree with
               | some t => fromTree c (dropBlankInContainers t)
               | none => none
-            let agree := match iload with
+            let agree := fok && match iload with
               | some (l, _) => decide (l = m)
               | none => false
             let ff := if feats.contains "data-wrapped" then ":data-wrapped" else ""
